@@ -34,3 +34,23 @@ Definition turn (w : option wfault) (reads : list rd) : turn_end :=
   | None => read_phase None reads
   | Some f => if wf_is_ioerror f then read_phase (Some (wf_exn f)) reads else TRaised (wf_exn f)
   end.
+
+(* The same read phase, also counting the packets handed to _react (early listeners, reaction, ordinary listeners) in the turn. *)
+Fixpoint read_phase_n (held : option Z) (reads : list rd) : turn_end * nat :=
+  match reads with
+  | [] => (match held with Some e => TRaised e | None => TContinue end, O)
+  | r :: t =>
+    match rd_raises r with
+    | Some e => (TRaised e, 1%nat)
+    | None =>
+      let held' := if rd_disconnect r then None else held in
+      if rd_ends_loop r then (match held' with Some e => TRaised e | None => TInterrupted end, 1%nat)
+      else let (o, n) := read_phase_n held' t in (o, S n)
+    end
+  end.
+
+Definition turn_n (w : option wfault) (reads : list rd) : turn_end * nat :=
+  match w with
+  | None => read_phase_n None reads
+  | Some f => if wf_is_ioerror f then read_phase_n (Some (wf_exn f)) reads else (TRaised (wf_exn f), O)
+  end.
